@@ -744,7 +744,12 @@ def case_jumps_backward_or_into_chain(case) -> bool:
                 j = i
                 while j + 1 < len(ops) and ops[j + 1][0] in T.OPS_CASE:
                     j += 1
-                if op[2][1] <= j:
+                # the minimizer removes Jump vertices: a target that is a Jump (chain) back into the case chain counts
+                t, hops = op[2][1], 0
+                while 0 <= t < len(ops) and ops[t][0] == "Jump" and ops[t][2] is not None and ops[t][2][0] == r_i and hops < len(ops):
+                    t = ops[t][2][1]
+                    hops += 1
+                if op[2][1] <= j or t <= j:
                     return True
     return False
 
